@@ -101,7 +101,7 @@ def renderS (A : SpMat R) : String := renderD showR A.toDense
 def renderT (t : Trans R) : E String := do
   let f ← lift t.forwardMat
   let b ← lift t.backwardMat
-  pure s!"T {t.srcDim} {t.tgtDim} {t.isId} F {renderS showR f} B {renderS showR b}"
+  pure s!"T {t.srcDim} {t.tgtDim} F {renderS showR f} B {renderS showR b}"
 
 def renderP (p : Perm) : E String := do
   let im ← lift (permImages p (List.range p.dim))
